@@ -23,7 +23,11 @@ def backtick(state: StateInline, silent: bool) -> bool:
     marker = state.src[start:pos]
     openerLength = len(marker)
 
-    if state.backticksScanned and state.backticks.get(openerLength, 0) <= start:
+    if (
+        state.backticksScanned
+        and start >= state.backticksScannedFrom
+        and state.backticks.get(openerLength, 0) <= start
+    ):
         if not silent:
             state.pending += marker
         state.pos += openerLength
@@ -61,9 +65,14 @@ def backtick(state: StateInline, silent: bool) -> bool:
             return True
 
         # Some different length found, put it in cache as upper limit of where closer can be found
-        state.backticks[closerLength] = matchStart
+        if matchStart > state.backticks.get(closerLength, -1):
+            state.backticks[closerLength] = matchStart
 
-    # Scanned through the end, didn't find anything
+    # Scanned through the end, didn't find anything.
+    # A link label is first scanned ahead and then tokenized, so an earlier
+    # opener may still come: the cache says nothing about runs before this scan.
+    if not state.backticksScanned or start < state.backticksScannedFrom:
+        state.backticksScannedFrom = start
     state.backticksScanned = True
 
     if not silent:
